@@ -929,6 +929,12 @@ impl Sim {
                     }
                     if let Some(p) = er.get::<ChildOf>() {
                         parent = self.slot_name(p.parent());
+                        if let Some(t) = er.get_change_ticks::<ChildOf>() {
+                            comps.insert(
+                                "ChildOf".to_string(),
+                                json!({"val": parent, "chg": self.frame_of(t.changed), "add": self.frame_of(t.added)}),
+                            );
+                        }
                     }
                 }
             }
@@ -1067,6 +1073,10 @@ impl Sim {
                             comps.insert(kn.to_string(), json!(version_of(v, slot.idx, k)));
                         }
                     }
+                }
+                if let Some(p) = er.get::<ChildOf>() {
+                    let pn = map.to_server().get(&p.parent()).map(|&s| self.slot_name(s)).unwrap_or("?".into());
+                    comps.insert("ChildOf".to_string(), json!(pn));
                 }
                 o["comps"] = Value::Object(comps);
                 if let Some(h) = er.get::<ConfirmHistory>() {
